@@ -25,7 +25,7 @@ class TranslateError(Exception):
 TOK = re.compile(
     r"\s*(?:(\d[\d_]*)"
     r"|([A-Za-z_][A-Za-z0-9_]*(?:::[A-Za-z_][A-Za-z0-9_]*)*)"
-    r"|(<<=|>>=|<<|>>|<=|>=|==|!=|&&|\|\||\+=|-=|->|=>|[-+*/%&|^!(){}\[\];,.:=<>]))")
+    r"|(<<=|>>=|<<|>>|<=|>=|==|!=|&&|\|\||\+=|-=|->|=>|[-+*/%&|^!(){}\[\];,.:=<>?]))")
 
 
 def tokenize(s):
@@ -275,8 +275,16 @@ class P:
         while self.at("id", "as"):
             self.eat()
             k, v = self.peek()
-            if k == "op" and v == "*":            # `as *mut ()` style pointer casts are not in the subset
-                raise TranslateError("pointer cast")
+            if k == "op" and v == "*":            # `as *mut ()` / `as *const T`: a pointer-width value
+                self.eat()
+                self.eat("id")                    # mut / const
+                if self.at("op", "("):
+                    self.eat()
+                    self.eat("op", ")")
+                else:
+                    self.eat("id")
+                e = ("cast", e, "*ptr")
+                continue
             ty = self.eat("id")
             e = ("cast", e, ty)
         return e
@@ -306,6 +314,9 @@ class P:
                     e = ("mcall", e, name, args)
                 else:
                     e = ("field", e, name)
+            elif self.at("op", "?"):
+                self.eat()
+                e = ("try", e)
             else:
                 return e
 
@@ -361,11 +372,12 @@ class P:
 # ------------------------------------------------------------------ symbolic execution -> Lean
 
 class Env:
-    def __init__(self, vals, consts, self_fields):
+    def __init__(self, vals, consts, self_fields, opts=None):
         self.vals, self.consts, self.self_fields = dict(vals), consts, list(self_fields)
+        self.opts = opts or {}
 
     def copy(self):
-        return Env(self.vals, self.consts, self.self_fields)
+        return Env(self.vals, self.consts, self.self_fields, self.opts)
 
 
 NARROW = {"u8": 8, "u16": 16, "u32": 32, "u64": 64}
@@ -390,6 +402,11 @@ def tr(e, env):
             return "WriteResult_" + n.split("::", 1)[1]
         if n in env.consts:
             return env.consts[n] if isinstance(env.consts, dict) else n
+        if env.opts.get("decode"):
+            if n == "ValueRef::Null":
+                return "NanBox.Ref.null"
+            if n.startswith("ErrorCode::") or n.startswith("Tag::"):
+                return n.replace("::", "_")
         raise TranslateError("unbound identifier %s" % n)
     if k == "field":
         base, f = e[1], e[2]
@@ -400,6 +417,8 @@ def tr(e, env):
         raise TranslateError("unsupported field access .%s" % f)
     if k == "cast":
         inner = tr(e[1], env)
+        if e[2] == "*ptr" or (e[2] == "usize" and env.opts.get("decode")):
+            return "(%s %% 2 ^ w)" % inner            # truncation to the pointer width
         if e[2] in IDENTITY_CASTS:
             return inner
         if e[2] in NARROW:
@@ -420,7 +439,31 @@ def tr(e, env):
             return tr(args[0], env)
         if f == "ptr::null" and not args:
             return "(none : Option Nat)"
+        if env.opts.get("decode") and len(args) == 1:
+            a = args[0]
+            if f == "Ok":
+                return "(NanBox.Decoded.ok %s)" % tr(a, env)
+            if f == "Err":                            # the error text is not observable: callers match `Err(_)`
+                return "NanBox.Decoded.decodeError"
+            if f == "ValueRef::Number":
+                return "(NanBox.Ref.number %s)" % tr(a, env)
+            if f == "ValueRef::Bool":
+                return "(NanBox.Ref.bool (decide %s))" % tr(a, env)
+            if f == "ValueRef::Error":
+                return "(NanBox.Ref.error %s)" % tr(a, env)
+            if f == "f64::from_bits":
+                return tr(a, env)
+            if f == "Tag::from_val":
+                return "(tagFromVal %s)" % tr(a, env)
+            if f == "ErrorCode::from_repr":
+                return ("fromrepr", tr(a, env))
         raise TranslateError("unsupported call %s" % f)
+    if k == "struct" and env.opts.get("decode"):
+        ctor = {"ValueRef::Array": "array", "ValueRef::String": "string", "ValueRef::Object": "object"}.get(e[1])
+        fields = dict(e[2])
+        if ctor is None or sorted(fields) != ["len", "ptr"]:
+            raise TranslateError("unsupported struct literal %s" % e[1])
+        return "(NanBox.Ref.%s %s %s)" % (ctor, tr(fields["ptr"], env), tr(fields["len"], env))
     if k == "mcall":
         recv, name, args = e[1], e[2], e[3]
         if name == "min" and len(args) == 1:
@@ -433,6 +476,15 @@ def tr(e, env):
             return "(some 0 : Option Nat)"
         if name == "add" and len(args) == 1:
             return "(ptrAdd %s %s)" % (tr(recv, env), tr(args[0], env))
+        if env.opts.get("decode"):
+            if name == "unwrap_or" and len(args) == 1 and args[0] == ("id", "ErrorCode::Unknown"):
+                r = tr(recv, env)
+                if isinstance(r, tuple) and r[0] == "fromrepr":
+                    return "(errorCodeFromRepr %s)" % r[1]
+            if name == "into" and not args:
+                return tr(recv, env)
+            if recv == ("id", "self") and not args and name in env.opts.get("fns", {}):
+                return inline_pure(env.opts["fns"][name], env)
         raise TranslateError("unsupported method .%s()" % name)
     if k == "if":
         c, a, b = e[1], e[2], e[3]
@@ -442,12 +494,39 @@ def tr(e, env):
     raise TranslateError("unsupported expression %s" % k)
 
 
+def inline_pure(stmts, env):
+    """a private method made of `let`s and a tail expression, inlined as an expression"""
+    env = env.copy()
+    for s in stmts[:-1]:
+        if s[0] != "let" or s[3] is None:
+            raise TranslateError("inlined method is not `let`s + tail expression")
+        env.vals[s[1]] = tr(s[3], env)
+    if not stmts or stmts[-1][0] != "tail":
+        raise TranslateError("inlined method has no tail expression")
+    return tr(stmts[-1][1], env)
+
+
 def run(stmts, env):
-    """decision tree: ('if', cond, t, e) | ('ret', value_or_None, env)"""
+    """decision tree: ('if', cond, t, e) | ('ret', value_or_None, env) | ('try', opt, var, tree)"""
     if not stmts:
         return ("ret", None, env)
     s, rest = stmts[0], stmts[1:]
     k = s[0]
+    if k == "let" and s[3] is not None and s[3][0] == "try":
+        if not env.opts.get("decode"):
+            raise TranslateError("`?` outside the subset")
+        opt = tr(s[3][1], env)
+        env = env.copy()
+        env.vals[s[1]] = s[1]
+        return ("try", opt, s[1], run(rest, env))
+    if k == "tail" and s[1][0] == "match" and rest == [] and env.opts.get("decode"):
+        scrut = tr(s[1][1], env)
+        tree = ("ret", "NanBox.Decoded.panic", env)          # no arm taken: not reachable for an exhaustive match
+        for variant, binder, body in reversed(s[1][2]):
+            if binder is not None or not variant.startswith("Tag::"):
+                raise TranslateError("unsupported match arm %s" % variant)
+            tree = ("if", "(%s = %s)" % (scrut, variant.replace("::", "_")), run(body, env), tree)
+        return tree
     if k == "skip":
         return run(rest, env)
     if k == "let":
@@ -497,6 +576,10 @@ def run(stmts, env):
 
 def emit(tree, out_fields, indent=2):
     pad = " " * indent
+    if tree[0] == "try":
+        _, opt, var, t = tree
+        return "%smatch %s with\n%s| none => NanBox.Decoded.decodeError\n%s| some %s =>\n%s" % (
+            pad, opt, pad, pad, var, emit(t, out_fields, indent + 2))
     if tree[0] == "ret":
         _, v, env = tree
         parts = []
@@ -509,13 +592,22 @@ def emit(tree, out_fields, indent=2):
     return "%sif %s then\n%s\n%selse\n%s" % (pad, c, emit(t, out_fields, indent + 2), pad, emit(e, out_fields, indent + 2))
 
 
-def translate(body_text, vals, consts, self_fields=()):
+def translate(body_text, vals, consts, self_fields=(), opts=None):
     stmts = P(tokenize(body_text)).stmts_until_end()
-    env = Env(vals, consts, self_fields)
+    env = Env(vals, consts, self_fields, opts)
     return emit(run(stmts, env), list(self_fields))
 
 
+def parse_body(body_text):
+    return P(tokenize(body_text)).stmts_until_end()
+
+
 # ------------------------------------------------------------------ the write state machine (state.rs)
+
+# names the extractor found in the source (the helper that swaps in a new state and pushes the old
+# one; the parameter that is the parent stack) — set per method by extract.py
+SWAP_FN = "swap_and_push"
+STACK_PARAM = "parent_state_stack"
 
 COUNTER_FNS = {("obj", "write_string"): "obj_write_string",
                ("obj", "write_non_string_value"): "obj_write_non_string_value",
@@ -623,7 +715,7 @@ def run_state(stmts, env):
         if lhs == ("deref", ("id", "self")) and op == "=":
             env = env.copy()
             if rhs[0] == "mcall" and rhs[2] == "unwrap_or" and rhs[1][0] == "mcall" and rhs[1][2] == "pop" \
-                    and rhs[1][1] == ("id", "parent_state_stack") and len(rhs[3]) == 1 \
+                    and rhs[1][1] == ("id", STACK_PARAM) and len(rhs[3]) == 1 \
                     and state_value(rhs[3][0], env) == ("done",):
                 env.self_v = ("raw", "(popOrEnd %s).1" % env.stack)
                 env.stack = "(popOrEnd %s).2" % env.stack
@@ -634,8 +726,8 @@ def run_state(stmts, env):
         raise TranslateError("unsupported assignment in state method")
     if k == "exprstmt":
         e = s[1]
-        if e[0] == "mcall" and e[1] == ("id", "self") and e[2] == "swap_and_push" and len(e[3]) == 2 \
-                and e[3][1] == ("id", "parent_state_stack"):
+        if e[0] == "mcall" and e[1] == ("id", "self") and e[2] == SWAP_FN and len(e[3]) == 2 \
+                and e[3][1] == ("id", STACK_PARAM):
             env = env.copy()
             new = state_value(e[3][0], env)
             env.stack = "(%s :: %s)" % (st_term(env.self_v), env.stack)
@@ -677,6 +769,10 @@ def run_state(stmts, env):
 
 def emit_state(tree, indent=2):
     pad = " " * indent
+    if tree[0] == "try":
+        _, opt, var, t = tree
+        return "%smatch %s with\n%s| none => NanBox.Decoded.decodeError\n%s| some %s =>\n%s" % (
+            pad, opt, pad, pad, var, emit(t, out_fields, indent + 2))
     if tree[0] == "ret":
         _, status, env = tree
         return "%s(%s, %s, %s)" % (pad, st_term(env.self_v), env.stack, status)
